@@ -80,6 +80,11 @@ PROP = [  # (subject fragment, property, also)
  ("Python statement cache is keyed by the statement with its parameters bound", "C30", ""),
  ("Python bool parameters are bound as BOOLEAN", "C30", ""),
  ("Python float parameters keep the sign of negative zero", "C30", ""),
+ ("on a table with INSERT triggers takes the normal path", "C34", ""),
+ ("re-resolves the column positions of the table's remaining foreign keys", "C33", "C24"),
+ ("rejected ALTER TABLE ADD CONSTRAINT FOREIGN KEY (cycle of foreign keys) leaves the table", "C33", ""),
+ ("COUNT(*) fast path checks the SELECT privilege", "C26", ""),
+ ("index-backed IN (subquery) shortcut checks the SELECT privilege", "C26", ""),
 ]
 def main():
     root = sys.argv[1] if len(sys.argv) > 1 else "/verif"
